@@ -79,6 +79,23 @@ pub fn render(v: &Value) -> String {
       utils.insert("u".into(), json!({"any": [{"matches": "w"}]}));
       utils.insert("w".into(), json!({"not": {"matches": "u"}}));
     }
+    // cycles that hide in a second key of a rule object
+    "cycle_via_sibling_key" => {
+      rule.insert("matches".into(), json!("u"));
+      utils.insert("u".into(), json!({"matches": "k", "not": {"matches": "w"}}));
+      utils.insert("w".into(), json!({"matches": "u"}));
+      utils.insert("k".into(), json!({"kind": "call_expression"}));
+    }
+    "cycle_all_and_any" => {
+      rule.insert("matches".into(), json!("u"));
+      utils.insert("u".into(), json!({"all": [{"kind": "call_expression"}], "any": [{"matches": "w"}, {"kind": "call_expression"}]}));
+      utils.insert("w".into(), json!({"any": [{"matches": "u"}, {"kind": "number"}]}));
+    }
+    "cycle_via_ofrule" => {
+      rule.insert("matches".into(), json!("u"));
+      utils.insert("u".into(), json!({"kind": "call_expression", "nthChild": {"position": 1, "ofRule": {"matches": "w"}}}));
+      utils.insert("w".into(), json!({"matches": "u"}));
+    }
     "cycle_via_relation" => {
       rule.insert("matches".into(), json!("u"));
       utils.insert("u".into(), json!({"any": [{"kind": "number"}, {"has": {"matches": "u", "stopBy": "end"}}, {"inside": {"matches": "u"}}]}));
